@@ -39,6 +39,9 @@ func (i ItemCollection) IRIs() IRIs {
 
 	iris := make(IRIs, 0, len(i))
 	for _, it := range i {
+		if IsNil(it) {
+			continue
+		}
 		iris = append(iris, it.GetLink())
 	}
 	return iris
@@ -250,10 +253,7 @@ func ToIRIs(it Item) (*IRIs, error) {
 		if i == nil {
 			return nil, nil
 		}
-		iris := make(IRIs, len(*i))
-		for j, ob := range *i {
-			iris[j] = ob.GetLink()
-		}
+		iris := i.IRIs()
 		return &iris, nil
 	default:
 		return reflectItemToType[IRIs](it)
